@@ -104,3 +104,8 @@ EDITS += [
 EDITS += [
     {'id': 'r8-flags-upserted', 'expect': 'fire', 'rule': 'C04.O4', 'file': 'spowtd/classify.py', 'old': 'INSERT INTO grid_time_flags', 'new': 'INSERT OR REPLACE INTO grid_time_flags'},
 ]
+
+# round 9 (a generalisation that is almost right)
+EDITS += [
+    {'id': 'r9-second-jump-threshold', 'expect': 'fire', 'rule': 'C04.O2', 'edits': [{'file': 'spowtd/classify.py', 'old': 'def classify_interstorms(cursor, data_interval, rising_jump_threshold_mm_h):', 'new': 'def classify_interstorms(cursor, data_interval, rising_jump_threshold_mm_h, mystery_threshold_mm_h=20.0):'}, {'file': 'spowtd/classify.py', 'old': '    is_mystery_jump = get_mystery_jump_mask(is_jump, is_raining)', 'new': '    is_mystery_jump = get_mystery_jump_mask((rates > mystery_threshold_mm_h).astype(bool), is_raining)'}]},
+]
